@@ -187,6 +187,7 @@ def check_c06(run):
             continue
         triage(run, rep, cfg[0], cfg[1], "C06")
     config_ccode(run)
+    config_dict_through_entry_points(run)
 
 
 def config_ccode(run):
@@ -212,6 +213,51 @@ def config_ccode(run):
     run.bounded.append({"what": "cpp.Config.ccode prints the editing threshold (None/0 -> 0.0, k -> k)", "bound": f"{len(cases)} values", "failures": len(bad), "counted_as_proved": False})
     if bad:
         run.findings.append(Finding(ob.name, "config", bad[0], {"language": "python", "inputs": {"cases": [repr(c) for c in cases]}, "oracle_verdict": bad}, True))
+
+
+def config_dict_through_entry_points(run):
+    """The configuration given as a DICT to the public cpp.compile_ekf (the repository's own way of disabling filtering is
+    config={"innovation_filtering": None}): the generated constants must be those of the dict, like python.compile_ekf's are."""
+    import os
+    import shutil
+    import tempfile
+    import types
+
+    from replay import faults, scenarios
+    from replay.native import REPO, repo_import
+
+    cpp = repo_import("formak.cpp")
+    ui = repo_import("formak.ui")
+    sc = scenarios.Scenario(2, 0, 1, [1], seed=run.seed + 2)
+    cases = [({"innovation_filtering": None}, 0.0, 0.1), ({"innovation_filtering": 2.5, "max_dt_sec": 0.05}, 2.5, 0.05), ({"innovation_filtering": None, "max_dt_sec": 0.25, "common_subexpression_elimination": False}, 0.0, 0.25)]
+    bad = []
+    for cfg, want_k, want_dt in cases:
+        tmp = tempfile.mkdtemp(prefix="formak-c06cfg-")
+        ns = types.SimpleNamespace(header=os.path.join(tmp, "generated", "m.h"), source=os.path.join(tmp, "generated", "m.cpp"), namespace="ns")
+        os.makedirs(os.path.dirname(ns.header), exist_ok=True)
+        old = cpp._compile_argparse
+        cpp._compile_argparse = lambda ns=ns: ns
+        try:
+            with faults._quiet_cwd(REPO):
+                model = sc.ui_model(ui)
+                cpp.compile_ekf(model, dict(sc.process_noise), {k: dict(v) for k, v in sc.sensor_models.items()}, {k: dict(v) for k, v in sc.sensor_noises.items()}, calibration_map=dict(sc.calibration_map), config=dict(cfg))
+            txt = open(ns.header).read()
+            mk = re.search(r"static constexpr double innovation_filtering = ([^;]+);", txt)
+            md = re.search(r"static constexpr double max_dt_sec = ([^;]+);", txt)
+            if not mk or float(mk.group(1)) != want_k:
+                bad.append(f"cpp.compile_ekf(config={cfg}) generates innovation_filtering = {mk.group(1) if mk else None}, expected {want_k} (python.compile_ekf with the same dict {'disables filtering' if want_k == 0.0 else 'uses ' + str(want_k)})")
+            if not md or float(md.group(1)) != want_dt:
+                bad.append(f"cpp.compile_ekf(config={cfg}) generates max_dt_sec = {md.group(1) if md else None}, expected {want_dt}")
+        except Exception as e:
+            bad.append(f"cpp.compile_ekf(config={cfg}) raised {type(e).__name__}: {(str(e).splitlines() or [''])[0][:120]}")
+        finally:
+            cpp._compile_argparse = old
+            shutil.rmtree(tmp, ignore_errors=True)
+    run.native_runs += len(cases)
+    ob = run.prove("C06.cxxgen.compile_ekf.dict_configuration_reaches_the_generated_constants", [], z3.BoolVal(not bad), function="py/formak/cpp.py:compile_ekf (native, finite cases)")
+    run.bounded.append({"what": "configuration passed as a dict to the public cpp.compile_ekf: generated innovation_filtering / max_dt_sec constants", "bound": f"{len(cases)} dicts", "failures": len(bad), "counted_as_proved": False})
+    if bad:
+        run.findings.append(Finding(ob.name, "config-dict", bad[0], {"language": "python", "inputs": {"config_dicts": [repr(c[0]) for c in cases]}, "oracle_verdict": bad}, True))
 
 
 def config_max_dt_literal(run, pid):
@@ -367,3 +413,8 @@ def check_c07(run):
     if run.tier == "thorough" or run.findings or run.undecided or any(r.status != "ok" for r in run.reports):
         n = max(n, 8)
     native_sweep(run, n)
+    # the same configuration must mean the same thing to both back ends, also when it is given as a dict
+    before = len(run.findings)
+    config_dict_through_entry_points(run)
+    for f in run.findings[before:]:
+        f.obligation = f.obligation.replace("C06.", "C07.", 1)
